@@ -4,6 +4,7 @@ import (
 	"fmt"
 	"github.com/basecomplextech/baselibrary/async"
 	"net"
+	"os"
 	"sync"
 	"sync/atomic"
 	"time"
@@ -77,6 +78,13 @@ type backoffMon struct {
 	seen  int64
 	maxAt int64
 	watch map[int64]bool // clients under observation (not closed by the harness yet)
+	count map[int64]int  // back-off events per watched client
+}
+
+func (b *backoffMon) events(c int64) int {
+	b.mu.Lock()
+	defer b.mu.Unlock()
+	return b.count[c]
 }
 
 // clientActivity counts hook events per client: a client is quiescent only while it does not move
@@ -104,12 +112,19 @@ func (b *backoffMon) hook(name string, a, bb, c int64) {
 		return
 	}
 	now := time.Now()
+	if os.Getenv("VERIF_DEBUG") != "" {
+		fmt.Fprintf(os.Stderr, "%s backoff client=%x attempt=%d timeout=%v\n", now.Format("05.000"), c, a, time.Duration(bb))
+	}
 	b.mu.Lock()
 	defer b.mu.Unlock()
 	if !b.watch[c] {
 		return // a sleep interrupted by Close is not a back-off violation
 	}
 	b.seen++
+	if b.count == nil {
+		b.count = map[int64]int{}
+	}
+	b.count[c]++
 	if a > b.maxAt {
 		b.maxAt = a
 	}
@@ -506,6 +521,16 @@ func C19(c *runner.Cfg) *report.Result {
 			}
 			w := map[string]any{"stream": "C19/two-slots", "index": k}
 			if k%2 == 0 {
+				// the connection must be fully established through the proxy first (Conn may return before
+				// the handshake has finished; the proxy resets connections that are still being set up
+				// when an outage begins)
+				if ch, st := conn.Channel(async.TimeoutContext(Watchdog / 4)); st.OK() {
+					echoOnce(ch, uint32(0x19000000+k))
+					ch.Free()
+				}
+				if !Settle(Watchdog/4, func() bool { return px.Open() >= 1 && !conn.Closed().IsSet() }) {
+					return
+				}
 				px.OutageKeep()
 				var held []mpx.Channel
 				for i := 0; i < 2; i++ { // reaching the channel target makes the client dial a second connection
@@ -514,9 +539,17 @@ func C19(c *runner.Cfg) *report.Result {
 						held = append(held, ch)
 					}
 				}
-				time.Sleep(700 * time.Millisecond)  // attempts with 50, 150, 350 ms of back-off
-				px.KillAll(true)                    // the first connection dies in the middle of the run
-				time.Sleep(1400 * time.Millisecond) // the pending 750 ms back-off and the attempts after it
+				// attempts with 50, 150, 350 ms of back-off have been announced ...
+				Settle(5*time.Second, func() bool { return bm.events(ptr) >= 3 })
+				before := bm.events(ptr)
+				if os.Getenv("VERIF_DEBUG") != "" {
+					live, total := mpx.VerifClientConns(cl)
+					snap, _ := mpx.VerifClientSnapshot(cl)
+					fmt.Fprintf(os.Stderr, "two-slot %d: events=%d open=%d live=%d total=%d snap=%+v held=%d accepts=%d\n", k, before, px.Open(), live, total, snap, len(held), px.Accepts.Load())
+				}
+				px.KillAll(true) // ... and the first connection dies in the middle of the run
+				// the pending back-off ends and at least three more attempts are announced
+				Settle(4*time.Second, func() bool { return bm.events(ptr) >= before+3 })
 				for _, ch := range held {
 					ch.Free()
 				}
